@@ -152,7 +152,7 @@ def _seq_perm(A, B):
     return True
 
 
-def ob_combos(layout, size, fname, ctx):
+def ob_combos(layout, size, fname, ctx, jack_groups=False):
     """layout: list of group sizes; notes sit at concrete times 0,100,200.. (one group each), columns symbolic."""
     from reamber.algorithms.pattern import Pattern
     from reamber.algorithms.pattern.combos import PtnCombo
@@ -167,15 +167,16 @@ def ob_combos(layout, size, fname, ctx):
         chosen = []
         for j in range(gs):
             c = ctx.int("c%d_%d" % (gi, j), 0, KEYS - 1)
-            for prev in chosen:
-                ctx.assume(c != prev)
+            if not jack_groups:
+                for prev in chosen:
+                    ctx.assume(c != prev)
             chosen.append(c)
             cols.append(c)
             offs.append(100.0 * gi + j)  # distinct, increasing: the grouping below is by 50 ms windows
             types.append(TY[kinds[k % 3]])
             k += 1
     p = Pattern(cols=cols, offsets=offs, types=types)
-    groups = p.group(v_window=50, h_window=None, avoid_jack=True)
+    groups = p.group(v_window=50, h_window=None, avoid_jack=not jack_groups)
     ctx.check("groups.layout", [len(g) for g in groups] == list(layout), note="%s" % [len(g) for g in groups])
     G = [[_rec(r) for r in g] for g in groups]
     chord = combo = typ = None
@@ -270,6 +271,11 @@ FILTERS = {
     "combo-jack-repeat-excluded": dict(combo=(lambda n: [[0] * n], 1, True)),
     "type[tail,any]-any-order-excluded": dict(type=(lambda n, TY: [[TY["T"]] + [object] * (n - 1)], 1, True)),
     "type[hold,hit]-mirror": dict(type=(lambda n, TY: [[TY["H"], TY["h"], TY["h"], TY["h"]][:n]], 2, False)),
+    "chord[[2,1],[1,1]]-two-bases": dict(chord=(lambda n: [[2, 1, 1, 1][:n], [1, 1, 2, 2][:n]], 0, False)),
+    "chord[[2,1],[1,2]]-two-bases-higher": dict(chord=(lambda n: [[2, 1, 1, 1][:n], [1, 2, 1, 1][:n]], 4, False)),
+    "combo[[0,1],[0,2]]-two-bases-repeat": dict(combo=(lambda n: [[0, 1, 0, 1][:n], [0, 2, 0, 2][:n]], 1, False)),
+    "combo[[0,0],[1,3]]-two-bases-repeat-mirror-excluded": dict(combo=(lambda n: [[0, 0, 0, 0][:n], [1, 3, 1, 3][:n]], 3, True)),
+    "type[[hit,hit],[hold,tail]]-two-bases-mirror": dict(type=(lambda n, TY: [[TY["h"]] * n, [TY["H"], TY["T"], TY["h"], TY["h"]][:n]], 2, False)),
     "all-three": dict(chord=(lambda n: [[2, 1, 1, 1][:n]], 3, False), combo=(lambda n: [[0] * n], 1, True),
                       type=(lambda n, TY: [[TY["T"]] + [object] * (n - 1)], 1, True)),
 }
@@ -356,6 +362,11 @@ def obligations(tier, seed):
                 obs.append(Obligation("C20/combos/size%d/%s/%s" % (size, "-".join(map(str, lay)), fname), partial(ob_combos, lay, size, fname),
                                       bound="groups of sizes %s (columns symbolic and distinct inside a group, 4 keys; types cycle hit/hold/tail), combination size %d, filter %s"
                                             % (lay, size, fname), max_paths=20000, timeout_s=600 if not quick else 240))
+    for lay in [(2, 1), (1, 2, 1), (2, 2)]:
+        for fname in ("none", "chord[2,1]", "chord[2,1]-any-order", "chord[2,2]-and-lower", "all-three"):
+            obs.append(Obligation("C20/combos-jack-groups/size2/%s/%s" % ("-".join(map(str, lay)), fname), partial(ob_combos, lay, 2, fname, jack_groups=True),
+                                  bound="groups of sizes %s formed with avoid_jack=False (columns symbolic, may repeat inside a group), combination size 2, filter %s" % (lay, fname),
+                                  max_paths=20000, timeout_s=600 if not quick else 240))
     for lay in ([(1, 1, 1), (2, 1)] if quick else [(1, 1, 1), (2, 1), (1, 2, 1), (2, 2)]):
         for which in [("jack", 2), ("jack", 3), ("stream", 2, 1, False, False), ("stream", 2, 1, True, False), ("stream", 2, 2, True, True)]:
             if which[0] == "jack" and which[1] > len(lay):
